@@ -77,6 +77,24 @@ type QHolder struct {
 	Dep *QDep `wire:",qualifier=red"`
 }
 
+// required component points on types nothing can be injected into: each of them must fail the start
+type BadStruct struct {
+	zoo.Core
+	X Pre `wire:""` // the forgotten *: a struct value
+}
+type BadMap struct {
+	zoo.Core
+	X map[string]zoo.INode `wire:""`
+}
+type BadSliceVal struct {
+	zoo.Core
+	X []Pre `func:"Sel"`
+}
+type BadNamedSlice struct {
+	zoo.Core
+	X []zoo.INode `wire:"factory-pp"` // a name on a slice
+}
+
 type Runner struct{ zoo.Core }
 
 func (r *Runner) Run() error {
@@ -272,7 +290,7 @@ func build(b *Base, faults []Site) *built {
 			switch f.Kind {
 			case "pp-before":
 				o.FailBefore = f.Name
-			case "pp-after":
+			case "pp-after", "pp-after-subst":
 				o.FailAfter = f.Name
 			case "pp-inst":
 				o.FailInst = f.Name
@@ -296,6 +314,28 @@ func build(b *Base, faults []Site) *built {
 			bu.obs[len(bu.obs)-1] = &in.Extra[len(in.Extra)-1].(*graph.PriorityObsPP).ObsPP
 		default:
 			in.Extra = append(in.Extra, o)
+		}
+	}
+	for _, f := range faults {
+		if f.Kind == "unsat-uninjectable" {
+			var c any
+			bh := &zoo.Beh{Alias: fmt.Sprintf("bad-point-%d", f.A), Mask: "m0"}
+			switch f.A {
+			case 0:
+				c = &BadStruct{Core: zoo.Core{B: bh}}
+			case 1:
+				c = &BadMap{Core: zoo.Core{B: bh}}
+			case 2:
+				c = &BadSliceVal{Core: zoo.Core{B: bh}}
+			default:
+				c = &BadNamedSlice{Core: zoo.Core{B: bh}}
+			}
+			addExtra(c, bh)
+			bu.fired++ // structural: the required point can never be satisfied
+		}
+		if f.Kind == "pp-after-subst" {
+			// the component is substituted before instantiation; observer f.A rejects the substitute after initialization
+			in.Extra = append(in.Extra, &graph.WrapPP{Plan: map[string]graph.WrapPlan{f.Name: {Inst: graph.WrapNew}}, IDOf: idOf})
 		}
 	}
 	fpp := &FactoryPP{fired: &bu.fired}
@@ -375,6 +415,16 @@ func sites(b *Base) []Site {
 				out = append(out, Site{Kind: kind, A: k, Name: nm})
 			}
 		}
+	}
+	for k := 0; k < b.Obs; k++ {
+		for i, n := range b.S.Nodes {
+			if n.Variant != 'N' { // a *T field cannot hold a substitute: only nodes nobody references by pointer type
+				out = append(out, Site{Kind: "pp-after-subst", A: k, Name: names[i]})
+			}
+		}
+	}
+	for v := 0; v < 4; v++ {
+		out = append(out, Site{Kind: "unsat-uninjectable", A: v})
 	}
 	for j := 0; j < b.Loaders; j++ {
 		out = append(out, Site{Kind: "loader", A: j}, Site{Kind: "loader-garbage", A: j})
